@@ -414,7 +414,7 @@ func dedup(in []string) []string {
 
 var spec = kit.Spec[Case]{
 	Prop: "C22", Name: "main",
-	Rule: "random DAG (2..10 nodes, shared subtrees, dag-pb v0/v1 + raw leaves) in a mem dagservice; history of 1..20 Pin/PinWithMode(valid+invalid modes)/Unpin/Update/Flush calls on dspinner with injected faults (context cancelled before the call or at the k-th datastore/blockstore access, a descendant block missing during the call); after every op all query APIs over all CIDs are compared with the pin model, an op that returned an error must leave them unchanged; non-trivial = some op returned an error while one of its target CIDs held a pin",
+	Rule:  "random DAG (2..10 nodes, shared subtrees, dag-pb v0/v1 + raw leaves) in a mem dagservice; history of 1..20 Pin/PinWithMode(valid+invalid modes)/Unpin/Update/Flush calls on dspinner with injected faults (context cancelled before the call or at the k-th datastore/blockstore access, a descendant block missing during the call); after every op all query APIs over all CIDs are compared with the pin model, an op that returned an error must leave them unchanged; non-trivial = some op returned an error while one of its target CIDs held a pin",
 	Quick: 800, Thorough: 2000,
 	Gen: gen, Run: run,
 	Sample: func(c Case) any {
